@@ -78,6 +78,51 @@ def _reach(meths, roots):
     return seen
 
 
+class _RepAssertion:
+    def __init__(self, source, tag):
+        self.source, self.tag = source, tag
+
+    def clone(self, memo):
+        root, dot, rest = self.source.partition(".")
+        return _RepAssertion(memo.get(root, root) + dot + rest, self.tag)
+
+
+class _RepTrace:
+    def __init__(self, entries):
+        self.entries = {k: list(v) for k, v in entries.items()}
+
+    def get_all_assertions(self):
+        return {k: list(v) for k, v in self.entries.items()}
+
+    def clear(self):
+        self.entries.clear()
+
+    def add_entry(self, position, assertion):
+        self.entries.setdefault(position, []).append(assertion)
+
+
+def _relink(ctx, repo) -> None:
+    """_fix_assertion_trace interpreted over a trace with assertions at binding and non-binding positions:
+    every recorded assertion is re-added at its position, sources renamed through the bindings."""
+    fn = repo.func(SUB, "SubprocessTestCaseExecutor._fix_assertion_trace")
+    ctx.analysed(fn)
+    old = {0: "var_0", 2: "var_1"}
+    new = {0: "int_0", 2: "obj_0"}
+    entries = {0: [_RepAssertion("int_0", "a")], 1: [_RepAssertion("obj_9", "exception at a statement that binds nothing")], 2: [_RepAssertion("obj_0.field", "b"), _RepAssertion("int_0", "c")], 3: [_RepAssertion("obj_0", "after the last binding")]}
+    trace = _RepTrace(entries)
+    try:
+        peval.Interp(resolver=peval.repo_resolver(repo), native_types=(_RepTrace, _RepAssertion)).run_function(fn, [trace, old, new], {}, repo.module(SUB))
+    except (peval.Undecided, peval.Raises) as exc:
+        ctx.undecide("C31.relink", fn, str(exc))
+        return
+    want = {0: [("var_0", "a")], 1: [("obj_9", "exception at a statement that binds nothing")], 2: [("var_1.field", "b"), ("var_0", "c")], 3: [("var_1", "after the last binding")]}
+    got = {k: [(a.source, a.tag) for a in v] for k, v in trace.entries.items() if v}
+    for pos in sorted(want):
+        ctx.check("C31.relink", fn, got.get(pos) == want[pos], f"position {pos}: the trace received from the subprocess held {[(a.source, a.tag) for a in entries[pos]]}, after re-linking it holds {got.get(pos)} (expected {want[pos]}): an assertion recorded in the child - e.g. the ExceptionAssertion of a raising statement that binds no variable - is lost or attached to another variable in subprocess mode only", what=f"assertions of position {pos} re-linked", stmt=f"[position {pos}]")
+    extra = sorted(set(got) - set(want))
+    ctx.check("C31.relink", fn, not extra, f"re-linking adds assertions at positions {extra}", what="no assertion invented", stmt="[extra]")
+
+
 def _configuration_transfer(ctx, repo) -> None:
     """State of the in-process executor that callers configure after construction (setters) and that the
     execution path reads must reach the executor the child process builds."""
@@ -116,6 +161,8 @@ def check(ctx) -> None:
     ctx.rule("C31.args", "positional arguments named like a parameter of the callee are at that parameter's position (process args, inner executor construction)", floor=2)
     ctx.rule("C31.transfer", "sibling agreement: every attribute of TestCaseExecutor that a setter can change after construction and that the execution path reads is handed to the child process by _setup_subprocess_execution, and the child uses every parameter it receives", floor=10)
     _configuration_transfer(ctx, repo)
+    ctx.rule("C31.relink", "ABSINT: _fix_assertion_trace over a trace with assertions at binding and non-binding positions re-adds every assertion at its position with its source renamed through the bindings", floor=5)
+    _relink(ctx, repo)
     ctx.rule("C31.pipe", "the tuple sent by the child and the names unpacked by the parent agree in length and role; the RNG state sent is installed; results are zipped with the bindings they were created from", floor=4)
     ctx.rule("C31.state", "ExecutionTracer.state getter and setter use the same keys", floor=1)
     ctx.rule("C31.fix", "_fix_result_for_pickle has a filter and a clear handler for every ExecutionResult field that can carry SUT objects", floor=6)
